@@ -115,6 +115,7 @@ def r11_2(ctx: Ctx):
         ctx.fail(rid, f'role {e.role}', 'iOpt/', str(e), key=f'{rid}::role::{e.role}')
         return
     from .c13 import _loop_over_listeners
+    C.refuse_peeled_loop(rid, drv)
     loops = [n for n in ast.walk(drv.node) if isinstance(n, ast.For) and not _loop_over_listeners(ctx, drv, n)]
     ctx.floor(rid, 'iteration loops in the driver', len(loops), 1)
     # names that only feed a diagnostic statement (logging call / print whose value is not used)
@@ -374,6 +375,10 @@ def r11_4(ctx: Ctx):
             if not tl:
                 # guard of the form <counter> == 0 (the counter starts at 0, the seeding routine makes it positive
                 # and nothing ever resets it): an equally good first-iteration typestate
+                sg = _state_guard(ctx, guards, key_of(selfv))
+                if sg is not None:
+                    _check_state_guard(ctx, rid, drv, sdg, s, evs, i, sg)
+                    continue
                 cg = _counter_guard(ctx, guards)
                 if cg is not None:
                     _check_counter_guard(ctx, rid, drv, sdg, s, evs, i, cg)
@@ -411,6 +416,94 @@ def r11_4(ctx: Ctx):
                 continue
         ctx.fail(rid, m.func.short, m.loc(), f'the first-iteration flag has another writer: {m.text()} (a reset makes '
                                              f'a later call seed the search again)', key=ctx.key_for(rid, m.func, m.node))
+
+
+def _const_state(k) -> bool:
+    """A key that names one fixed value: a member of a class (Enum member / class constant) or a string literal."""
+    return isinstance(k, tuple) and len(k) >= 2 and k[0] in ('classattr', 'str')
+
+
+def _state_guard(ctx: Ctx, guards, selfk):
+    """(field, K) of a guard literal  self.<field> == K / is K  with K a named constant (an Enum member, a class
+    constant, a string): the state-machine form of the first-iteration guard."""
+    for g in guards:
+        l = g.d['lit']
+        if l.kind != 'cmp' or l.op != '==':
+            continue
+        ats = [a for a in l.rf.atoms()]
+        fld = [a for a in ats if isinstance(a, tuple) and len(a) == 4 and a[0] == 'attr' and a[1] == selfk
+               and isinstance(a[2], str)]
+        ks = [a for a in ats if _const_state(a)]
+        if len(ats) == 2 and len(fld) == 1 and len(ks) == 1:
+            return fld[0][2], ks[0]
+    return None
+
+
+def _distinct_states(ctx: Ctx, a, b) -> bool:
+    """Two named constants certainly denote different values: different string literals, or different members of one
+    Enum class whose members are auto() or pairwise different literals."""
+    if a == b:
+        return False
+    if a[0] == 'str' and b[0] == 'str':
+        return True
+    if a[0] == 'classattr' and b[0] == 'classattr' and a[1] == b[1]:
+        cls = ctx.ix.classes.get(a[1])
+        if cls is None:
+            return False
+        vals = {}
+        for st in cls.node.body:
+            if isinstance(st, ast.Assign) and len(st.targets) == 1 and isinstance(st.targets[0], ast.Name):
+                vals[st.targets[0].id] = st.value
+        va, vb = vals.get(a[2]), vals.get(b[2])
+        if va is None or vb is None:
+            return False
+        is_enum = any('Enum' in ast.unparse(bs) or 'Flag' in ast.unparse(bs) for bs in cls.node.bases)
+        if isinstance(va, ast.Constant) and isinstance(vb, ast.Constant):
+            return va.value != vb.value
+        if is_enum and all(isinstance(v, ast.Call) and ast.unparse(v.func).endswith('auto') for v in (va, vb)):
+            return True
+    return False
+
+
+def _check_state_guard(ctx: Ctx, rid: str, drv, sdg, s, evs, i, sg):
+    fld, k0 = sg
+    roles = C.roles_of(ctx)
+    after = [e for e in evs[i + 1:] if e.kind == 'store' and e.d['tkind'] == 'attr' and e.d['field'] == fld]
+    nxt_trip = [j for j, e in enumerate(evs[i + 1:]) if e.kind in ('iter', 'loopexit') and e.depth == 0
+                and e.func is drv and not _is_listener_loop(ctx, drv, e)]
+    ok = bool(after) and _const_state(key_of(after[0].d['value'])) and \
+        _distinct_states(ctx, k0, key_of(after[0].d['value'])) and \
+        (not nxt_trip or evs[i + 1:].index(after[0]) < nxt_trip[0])
+    ctx.check(ok, rid, drv.short, drv.loc(after[0].node) if after else drv.loc(s.node),
+              f'the state {fld} leaves {C.fmt_key_safe(k0)} in the same trip, after the seeding routine',
+              f'the first-iteration state {fld} is not moved away from {C.fmt_key_safe(k0)} right after the seeding '
+              f'routine: the search is seeded again on the next trip/call', key=f'{rid}::{drv.short}::cleared')
+    init = drv.cls.lookup('__init__')
+    oki = False
+    for p in C.normal_paths(ctx.explorer().explore(init)):
+        v = p.state.heap.get((key_of(var(init.param_names[0])), fld))
+        oki = v is not None and key_of(v) == k0
+    ctx.check(oki, rid, init.short, init.loc(), f'the state starts as {C.fmt_key_safe(k0)}',
+              f'the first-iteration state {fld} does not start as {C.fmt_key_safe(k0)}',
+              key=f'{rid}::{init.short}::starts-true')
+    # nobody stores the initial state again
+    for m in roles.attr_writers(fld, drv.cls):
+        v = getattr(m.node, 'value', None)
+        vk = None
+        if isinstance(v, ast.Attribute) and isinstance(v.value, ast.Name):
+            c = ctx.ix.resolve_class(m.func.module, v.value.id) if hasattr(ctx.ix, 'resolve_class') else None
+            if c is None:
+                c = next((cl for cl in ctx.ix.classes.values() if cl.name == v.value.id), None)
+            if c is not None:
+                vk = ('classattr', c.qualname, v.attr)
+        elif isinstance(v, ast.Constant) and isinstance(v.value, str):
+            vk = ('str', v.value)
+        if vk is not None and _distinct_states(ctx, k0, vk):
+            continue
+        ctx.fail(rid, m.func.short, m.loc(), f'the first-iteration state has another writer that may restore '
+                                             f'{C.fmt_key_safe(k0)}: {m.text()} (a reset makes a later call seed the '
+                                             f'search again)', key=ctx.key_for(rid, m.func, m.node),
+                 detail={'decidable': True})
 
 
 def _counter_guard(ctx: Ctx, guards):
